@@ -71,4 +71,10 @@ PROPS = {
             {"name": "TestC17", "quick": 3000, "thorough": 40000},
         ],
     },
+    "C14": {
+        "level": "exploration",
+        "tests": [
+            {"name": "TestC14", "quick": 1000, "thorough": 25000},
+        ],
+    },
 }
